@@ -523,7 +523,7 @@ def run_shard(ctx: Ctx, rec: Recorder) -> None:
         if ctx.shard == 0:
             run_shared_headers(rec, tmpdir)
         idx = 0
-        stride = ctx.pick(2, 1)
+        stride = ctx.pick(3, 1)
         for kind in KINDS:
             for size in SIZES:
                 for method in METHODS:
@@ -531,8 +531,10 @@ def run_shard(ctx: Ctx, rec: Recorder) -> None:
                         for hist in HISTORIES:
                             for via in ("pool", "manager"):
                                 idx += 1
-                                if not ctx.mine(idx) or (idx // ctx.nshards) % stride:
+                                if not ctx.mine(idx) or ctx.skip(idx, stride):
                                     continue
+                                if kind.endswith("-big") and size != BS:
+                                    continue  # (the large file is the same for every nominal size)
                                 if kind == "none" and size != 0:
                                     continue
                                 rec.case([kind, size, method, chunked, hist, via], nontrivial=not (kind == "none" and hist == "ok"))
